@@ -52,7 +52,7 @@ def psig(s):
 
 
 def run(lines, out, args):
-    from zope.interface import Interface, Attribute, implementer, classImplements
+    from zope.interface import Interface, Attribute, implementer, classImplements, directlyProvides
     from zope.interface.interface import InterfaceClass
     from zope.interface.verify import verifyObject, verifyClass
     from zope.interface.exceptions import (Invalid, BrokenMethodImplementation, MultipleInvalid, BrokenImplementation,
@@ -63,21 +63,29 @@ def run(lines, out, args):
             return "DNI"
         if isinstance(e, BrokenImplementation):
             nm = e.name if isinstance(e.name, str) else e.name.__name__
-            return "BI:%s" % nm.lstrip("m")
+            return "BI:%s" % nm.lstrip("mz")
         if isinstance(e, BrokenMethodImplementation):
             msg = e.mess
             code = {"implementation requires too many arguments": "many", "implementation doesn't allow enough arguments": "few",
                     "implementation doesn't support keyword arguments": "kw", "implementation doesn't support variable arguments": "var",
                     "implementation is not a method": "notmethod"}.get(msg, "?" + msg)
-            return "BM:%s:%s" % (e.method.lstrip("m") if isinstance(e.method, str) else getattr(e.method, "__name__", "?").lstrip("m"), code)
+            return "BM:%s:%s" % (e.method.lstrip("mz") if isinstance(e.method, str) else getattr(e.method, "__name__", "?").lstrip("mz"), code)
         return "other:" + type(e).__name__
 
     serial = [0]
+    aliased = set()
 
     def desc(n, d):
+        if n in aliased:
+            # the description is listed under a name that is not its own (an alias in the interface body / a description
+            # borrowed from another interface): `begin = start`, `execute = IRunner["run"]`, `x = Attribute("y")`
+            from zope.interface.interface import fromFunction
+            return Attribute("zz%s" % n) if d == "A" else fromFunction(mkfunc("zz" + n, psig(d[1:]), False))
         return Attribute("attr m%s" % n) if d == "A" else mkfunc("m" + n, psig(d[1:]), False)
 
-    def candidate(elems, cls_mode, declared_for):
+    IOther = InterfaceClass("IOther", (Interface,), {}, __module__="zi.gen.verify")
+
+    def candidate(elems, cls_mode, declared_for, on_instance=False):
         body = {}
         inst_attrs = {}
         for n, d, c in elems:
@@ -102,10 +110,18 @@ def run(lines, out, args):
                 (body if cls_mode else inst_attrs)[name] = 42
             elif c == "P":
                 body[name] = property(lambda self: 7)
-        C = type("C", (), body)
-        if declared_for is not None:
-            classImplements(C, declared_for)
-        ob = C()
+        if on_instance and declared_for is not None and not cls_mode:
+            # an instance without __dict__ (slots incl. __provides__), the class declares something else, the verified
+            # interface is declared on the instance only
+            C = type("C", (), dict(body, __slots__=("__provides__",) + tuple(inst_attrs)))
+            classImplements(C, IOther)
+            ob = C()
+            directlyProvides(ob, declared_for)
+        else:
+            C = type("C", (), body)
+            if declared_for is not None:
+                classImplements(C, declared_for)
+            ob = C()
         for k, v in inst_attrs.items():
             setattr(ob, k, v)
         return C, ob
@@ -160,8 +176,12 @@ def run(lines, out, args):
         if f[0] not in ("verify", "verify2"):
             out.write("bad\n")
             continue
-        cls_mode, tentative, declared = f[1] == "c", f[2] == "1", f[3] == "1"
+        cls_mode, tentative, declared = f[1] == "c", f[2] == "1", f[3] in ("1", "2")
+        on_instance = f[3] == "2"
         elems = [e.split(":") for e in f[4].split(";") if e]
+        aliased.clear()
+        aliased.update(e[0].rstrip("z") for e in elems if e[0].endswith("z"))
+        elems = [[e[0].rstrip("z")] + e[1:] for e in elems]
         nbase = int(f[5]) if len(f) > 5 else 0
         try:
             if f[0] == "verify2":
@@ -171,7 +191,7 @@ def run(lines, out, args):
                 IE = InterfaceClass("IE%d" % serial[0], (Interface,), {"m" + n: desc(n, d) for n, d, c in elems[:nextra]}, __module__="zi.gen")
                 IB = InterfaceClass("IB%d" % serial[0], (Interface,), {"m" + n: desc(n, d) for n, d, c in elems[nextra:nextra + nbase]}, __module__="zi.gen")
                 I = InterfaceClass("I%d" % serial[0], (IB,), {"m" + n: desc(n, d) for n, d, c in elems[nextra + nbase:]}, __module__="zi.gen")
-                C, ob = candidate(elems, cls_mode, I if declared else None)
+                C, ob = candidate(elems, cls_mode, I if declared else None, on_instance)
                 g1, w1 = verify_and_judge(I, elems[nextra:], C, ob, cls_mode, tentative, declared)
                 IB.__bases__ = (IE,)
                 order = [n for n, _ in I.namesAndDescriptions(all=True)]
@@ -186,7 +206,7 @@ def run(lines, out, args):
                 InterfaceClass("I", (Interface,), own_attrs, __module__="zi.gen")
             order = [n for n, _ in I.namesAndDescriptions(all=True)]
             order_ok = order == ["m" + n for n, d, c in elems]
-            C, ob = candidate(elems, cls_mode, I if declared else None)
+            C, ob = candidate(elems, cls_mode, I if declared else None, on_instance)
             got, want = verify_and_judge(I, elems, C, ob, cls_mode, tentative, declared)
             out.write("%s || %s%s\n" % (got, want, "" if order_ok else " ORDER-MISMATCH %s" % order))
         except Exception as e:  # noqa
